@@ -71,3 +71,45 @@ def _(c):
     c.arg("b", Int(0, 255))
     _io(c)
     c.returns(lambda a, r: And(r[0] == a.b, r[1] == 1, r[2] == 1, r[3] is True, r[4] is False))
+
+
+# ------------------------------------------------------------------------------------------ zone interval transitions
+EPOCH_1800_NS = -5364662400 * V.NPS  # 1800-01-01T00:00:00Z
+TPH = 36_000_000_000
+TPM = 600_000_000
+
+
+def same_instant(x, y):
+    return And(V.inst_ns(x) == V.inst_ns(y), V.inv_instant_any(x))
+
+
+def _transition_len(prev_valid, prev_ns, val):
+    """Documented compact forms: 1-byte markers for the ends of time; hours since the previous transition when that is
+    a whole number of hours in [2^7, 2^21); minutes since 1800 when whole minutes in (2^21, 2^31); else marker + raw ticks."""
+    vn = V.inst_ns(val)
+    ticks_prev = (vn - prev_ns) // 100
+    hours = ticks_prev // TPH
+    use_hours = And(prev_valid, ticks_prev % TPH == 0, hours >= 2**7, hours < 2**21)
+    ticks_1800 = (vn - EPOCH_1800_NS) // 100
+    mins = ticks_1800 // TPM
+    use_mins = And(vn >= EPOCH_1800_NS, ticks_1800 % TPM == 0, mins > 2**21, mins <= INT_MAX)
+    return ite(Or(V.is_before_min(val), V.is_after_max(val)), 1, ite(use_hours, varint_len(hours), ite(use_mins, varint_len(mins), 9)))
+
+
+@contract(H + "rt_transition", "C14", name="write/read_zone_interval_transition with a previous transition: round trip, exact consumption, canonical choice of form")
+def _(c):
+    c.arg("previous", InstantAnyG()).arg("value", InstantAnyG())
+    _io(c)
+    # the format stores ticks: transitions are tick-aligned; the writer requires value >= previous
+    c.requires(lambda a: And(V.inst_ns(a.value) % 100 == 0, V.inst_ns(a.previous) % 100 == 0, V.inst_ns(a.value) >= V.inst_ns(a.previous)))
+    c.returns(lambda a, r: And(same_instant(r[0], a.value), r[1] == r[2], r[2] == _transition_len(V.inv_instant_valid(a.previous), V.inst_ns(a.previous), a.value)))
+    c.timeout_s = 60
+
+
+@contract(H + "rt_transition", "C14", name="write/read_zone_interval_transition without previous transition")
+def _(c):
+    c.arg("previous", Const(None)).arg("value", InstantAnyG())
+    _io(c)
+    c.requires(lambda a: V.inst_ns(a.value) % 100 == 0)
+    c.returns(lambda a, r: And(same_instant(r[0], a.value), r[1] == r[2], r[2] == _transition_len(False, 0, a.value)))
+    c.timeout_s = 60
